@@ -5,7 +5,6 @@ import (
 	"encoding/binary"
 	"fmt"
 	"math"
-	"sort"
 	"strconv"
 	"strings"
 
@@ -26,7 +25,8 @@ type PlyCase struct {
 	N      int `json:"n"`
 	Mask   int `json:"mask"`   // bit0 Normal, bit1 FDC, bit2 Scale, bit3 Rotation, bit4 Opacity
 	Rest   int `json:"rest"`   // number of f_rest_k attributes (k = 0..Rest-1)
-	Family int `json:"family"` // value family
+	Family int `json:"family"` // value family (2 = non-periodic ladder values)
+	Reader int `json:"reader,omitempty"` // io.Reader behaviour handed to ply.ReadMesh
 }
 
 type plyAttr struct {
@@ -70,21 +70,26 @@ func plyValue(family, attr, comp, i int) float64 {
 		// magnitudes: tiny, large, exact integers, thirds
 		base := []float64{1e-7, 123456.789, 3, -1.0 / 3, 65504.5, -2e-3}[(attr+2*comp+i)%6]
 		return base * (1 + float64(attr)/64 + float64(comp)/8 + float64(i)/4)
+	case 2:
+		// size ladder: an irrational rotation per (attribute, component) — no period in i
+		return (lds(i, irr[(attr*4+comp)%len(irr)]) - 0.5 + float64(attr%7)) * 37.3
 	}
 	return 0
 }
 
-func buildPlyCloud(pc PlyCase) (modeling.Mesh, map[string][][]float64) {
-	want := map[string][][]float64{} // attribute -> [vertex][component] float32-rounded
+// buildPlyCloud returns the cloud and, per attribute, the float32-rounded values (vertex-major, flat).
+func buildPlyCloud(pc PlyCase) (modeling.Mesh, map[string][]float64) {
+	want := map[string][]float64{}
 	v1 := map[string][]float64{}
 	v3 := map[string][]vector3.Float64{}
 	v4 := map[string][]vector4.Float64{}
 	for ai, a := range plyAttrs(pc) {
-		rows := make([][]float64, pc.N)
+		flat := make([]float64, 0, pc.N*a.dim)
+		var row [4]float64
 		for i := 0; i < pc.N; i++ {
-			row := make([]float64, a.dim)
-			for cI := range row {
+			for cI := 0; cI < a.dim; cI++ {
 				row[cI] = plyValue(pc.Family, ai, cI, i)
+				flat = append(flat, f32(row[cI]))
 			}
 			switch a.dim {
 			case 1:
@@ -94,13 +99,8 @@ func buildPlyCloud(pc PlyCase) (modeling.Mesh, map[string][][]float64) {
 			case 4:
 				v4[a.name] = append(v4[a.name], vector4.New(row[0], row[1], row[2], row[3]))
 			}
-			r32 := make([]float64, a.dim)
-			for cI := range row {
-				r32[cI] = f32(row[cI])
-			}
-			rows[i] = r32
 		}
-		want[a.name] = rows
+		want[a.name] = flat
 	}
 	return modeling.NewPointCloud(v4, v3, nil, v1, nil), want
 }
@@ -180,6 +180,12 @@ func (k *checker) plyCase(pc PlyCase, scope string) {
 	c := k.c
 	cs := Case{Kind: "ply", Ply: &pc}
 	class := fmt.Sprintf("n=%d/rest=%d", min(pc.N, 2), pc.Rest)
+	if pc.N > 5 {
+		class = fmt.Sprintf("ladder/rest=%d", pc.Rest)
+	}
+	if pc.Reader != rdAll {
+		class += "/" + modeName(pc.Reader)
+	}
 	mesh, want := buildPlyCloud(pc)
 	var buf bytes.Buffer
 	var werr error
@@ -197,15 +203,10 @@ func (k *checker) plyCase(pc PlyCase, scope string) {
 	outcome := "ok"
 	defer func() { c.Eval(scope, outcome) }()
 	if pc.N > 0 {
-		c.Nontrivial("ply", pc.N, pc.Mask, pc.Rest, pc.Family)
+		c.Nontrivial("ply", pc.N, pc.Mask, pc.Rest, pc.Family, pc.Reader)
 	}
 	c.Sample(scope, map[string]any{"case": pc, "bytes": len(data)})
 	const clause = "the PLY splat export preserves every splat attribute at float32 precision"
-	names := make([]string, 0, len(want))
-	for a := range want {
-		names = append(names, a)
-	}
-	sort.Strings(names)
 	attrs := plyAttrs(pc)
 
 	// the writer, judged by the independent parser
@@ -231,9 +232,9 @@ func (k *checker) plyCase(pc PlyCase, scope string) {
 					break
 				}
 				for i := 0; i < pc.N; i++ {
-					if col[i] != want[a.name][i][cI] {
+					if col[i] != want[a.name][i*a.dim+cI] {
 						outcome, writerBad = "mismatch", true
-						k.fail("ply.SplatPly.Write", clause, class+"/value", fmt.Sprintf("attribute %s property %q vertex %d: file holds %v, want %v", a.name, p, i, col[i], want[a.name][i][cI]), cs)
+						k.fail("ply.SplatPly.Write", clause, class+"/value", fmt.Sprintf("attribute %s property %q vertex %d: file holds %v, want %v", a.name, p, i, col[i], want[a.name][i*a.dim+cI]), cs)
 						break
 					}
 				}
@@ -244,7 +245,7 @@ func (k *checker) plyCase(pc PlyCase, scope string) {
 	// the reader
 	var back *modeling.Mesh
 	var rerr error
-	o = core.Guard(func() { back, rerr = ply.ReadMesh(bytes.NewReader(data)) })
+	o = core.Guard(func() { back, rerr = ply.ReadMesh(shaped(data, pc.Reader)) })
 	if o.Panicked || rerr != nil || back == nil {
 		outcome = "mismatch"
 		site := "ply.ReadMesh"
@@ -268,25 +269,25 @@ func (k *checker) plyCase(pc PlyCase, scope string) {
 		return
 	}
 	for _, a := range attrs {
-		var got [][]float64
+		var got []float64
 		o = core.Guard(func() {
 			switch a.dim {
 			case 1:
 				it := back.Float1Attribute(a.name)
 				for i := 0; i < it.Len(); i++ {
-					got = append(got, []float64{it.At(i)})
+					got = append(got, it.At(i))
 				}
 			case 3:
 				it := back.Float3Attribute(a.name)
 				for i := 0; i < it.Len(); i++ {
 					v := it.At(i)
-					got = append(got, []float64{v.X(), v.Y(), v.Z()})
+					got = append(got, v.X(), v.Y(), v.Z())
 				}
 			case 4:
 				it := back.Float4Attribute(a.name)
 				for i := 0; i < it.Len(); i++ {
 					v := it.At(i)
-					got = append(got, []float64{v.X(), v.Y(), v.Z(), v.W()})
+					got = append(got, v.X(), v.Y(), v.Z(), v.W())
 				}
 			}
 		})
@@ -295,9 +296,18 @@ func (k *checker) plyCase(pc PlyCase, scope string) {
 			k.fail("ply.ReadMesh", clause, class+"/missing-attribute", fmt.Sprintf("attribute %s (%d components) not read back: %s", a.name, a.dim, o.Msg), cs)
 			continue
 		}
-		if fmt.Sprint(got) != fmt.Sprint(want[a.name]) {
+		w := want[a.name]
+		if len(got) != len(w) {
 			outcome = "mismatch"
-			k.fail("ply.ReadMesh", clause, class+"/value", fmt.Sprintf("attribute %s: got %v want %v", a.name, got, want[a.name]), cs)
+			k.fail("ply.ReadMesh", clause, class+"/count", fmt.Sprintf("attribute %s: read back %d values, want %d", a.name, len(got), len(w)), cs)
+			continue
+		}
+		for j := range w {
+			if got[j] != w[j] {
+				outcome = "mismatch"
+				k.fail("ply.ReadMesh", clause, class+"/value", fmt.Sprintf("attribute %s vertex %d component %d: got %v want %v (reader: %s)", a.name, j/a.dim, j%a.dim, got[j], w[j], modeName(pc.Reader)), cs)
+				break
+			}
 		}
 	}
 }
@@ -323,7 +333,9 @@ func (k *checker) runPly() {
 			}
 			for _, rest := range rests {
 				for _, fam := range fams {
-					k.plyCase(PlyCase{N: n, Mask: mask, Rest: rest, Family: fam}, fmt.Sprintf("ply/n=%d", min(n, 2)))
+					for mode := range readerModes {
+						k.plyCase(PlyCase{N: n, Mask: mask, Rest: rest, Family: fam, Reader: mode}, fmt.Sprintf("ply/n=%d", min(n, 2)))
+					}
 				}
 			}
 		}
